@@ -2,8 +2,15 @@
    Statements only; proofs are in Proofs/ConductorInv.v, Proofs/ConductorProofs.v, Proofs/C09OracleProofs.v.
    The model (Model/Conductor.v) describes the conductor with the repairs of fixes/C09-*.diff and fixes/C10-*.diff.
    `inv` is the invariant that holds in every state any history reaches (C09_invariant). *)
-Require Import V.Base.MachineInt V.Generated.GenConsts V.Model.Conductor V.Proofs.ConductorBase V.Proofs.ConductorInv
-               V.Proofs.ConductorProofs V.Proofs.ConductorClose V.Oracle.C09Oracle V.Proofs.C09OracleProofs.
+Require Import V.Base.MachineInt.
+Require Import V.Generated.GenConsts.
+Require Import V.Model.Conductor.
+Require Import V.Proofs.ConductorBase.
+Require Import V.Proofs.ConductorInv.
+Require Import V.Proofs.ConductorProofs.
+Require Import V.Proofs.ConductorClose.
+Require Import V.Oracle.C09Oracle.
+Require Import V.Proofs.C09OracleProofs.
 Open Scope Z_scope.
 
 (* every state reached by any history of operations satisfies the invariant *)
